@@ -94,7 +94,7 @@ func hx(b []byte) string { return vh.Hex(b) }
 // ---------------------------------------------------------------- R 2,3,4 function level (K + O)
 
 func partRC4(r *vh.Run) {
-	n := r.Pick(160, 2500)
+	n := r.Pick(100, 2500)
 	for i := 0; i < n; i++ {
 		rev := 2 + r.Rand.Intn(3)
 		length := 40 + 8*r.Rand.Intn(12)
